@@ -41,13 +41,56 @@ Definition raw_find (md : mods) (h : hir) (mem : list N) (offset : N) : option (
       | Some (s, e) => Some (s, e, MAscii) | None => None end
   end.
 
+(* ---- apply_wide_word_boundaries (regex with \b or \B under `wide`): the widened regex (where the
+   boundaries were erased) found [s, e); the plain regex is run on the un-widened text starting one
+   wide character before s (when there is one) and at most 500 bytes after e; the match is kept
+   when the plain regex, searched from s on, finds its leftmost match exactly at s (fix: the search
+   used to start at the previous character), and its length is taken from it. *)
+Fixpoint unwide (fuel : nat) (mem : list N) (i lim : N) : list N :=
+  match fuel with
+  | O => []
+  | S f =>
+      if (i + 2 <=? lim) && is_nul_at mem (i + 1) then
+        match byte_at mem i with Some b => b :: unwide f mem (i + 2) lim | None => [] end
+      else []
+  end.
+
+Definition apply_wide_word_boundaries (md : mods) (h : hir) (mem : list N) (s e : N) (mt : mtype)
+  : option (N * N) :=
+  if is_wide_mt mt then
+    let start := if (2 <=? s) && is_nul_at mem (s - 1) then s - 2 else s in
+    let u := unwide (S (length mem)) mem start (N.min (nlen mem) (e + 500)) in
+    let expected := if start <? s then 1 else 0 in
+    match find_from (flags_of md) u h expected with
+    | Some (ms, me) => if ms =? expected then Some (s, s + 2 * (me - ms)) else None
+    | None => None
+    end
+  else Some (s, e).
+
+(* RawMatcher::find_next_match_at *)
+Fixpoint raw_find_next (fuel : nat) (md : mods) (h : hir) (mem : list N) (offset : N) : option (N * N * mtype) :=
+  match fuel with
+  | O => None
+  | S f =>
+      match raw_find md h mem offset with
+      | None => None
+      | Some (s, e, mt) =>
+          if m_wide md && has_word_boundary h then
+            match apply_wide_word_boundaries md h mem s e mt with
+            | Some (s', e') => Some (s', e', mt)
+            | None => raw_find_next f md h mem (s + 1)
+            end
+          else Some (s, e, mt)
+      end
+  end.
+
 (* ---- Matcher::find_next_match_at: skip matches refused by fullword *)
 Fixpoint find_next_match_at (fuel : nat) (md : mods) (h : hir) (mem : list N) (offset : N) : option (N * N) :=
   match fuel with
   | O => None
   | S f =>
       if offset <? nlen mem then
-        match raw_find md h mem offset with
+        match raw_find_next (S (S (length mem))) md h mem offset with
         | None => None
         | Some (s, e, mt) =>
             if validate_fullword md mem s e mt then Some (s, e)
